@@ -796,13 +796,6 @@ var (
 	lastMS0, lastMS1 runtime.MemStats
 )
 
-// allocation bound of C02: linear in the datagram, times the largest template the cache can hold
-// (a field specifier needs 4 octets, so maxFields <= largest datagram seen in the session / 4)
-func allocBound(dgLen, maxPrev int) uint64 {
-	f := maxPrev/4 + 1
-	return 16384 + 160*uint64(dgLen+24)*uint64(f)
-}
-
 func (p *flowProto) runDecode(st *state, line, expect string) (string, string) {
 	initElems()
 	f := strings.Fields(line)
@@ -823,8 +816,8 @@ func (p *flowProto) runDecode(st *state, line, expect string) (string, string) {
 	switch {
 	case out.nrec > len(dg):
 		verdict = fmt.Sprintf("fail:records %d records from %d octets", out.nrec, len(dg))
-	case ms1.TotalAlloc-ms0.TotalAlloc > allocBound(len(dg), maxPrev):
-		verdict = fmt.Sprintf("fail:alloc %d bytes allocated for a %d-octet datagram (bound %d)", ms1.TotalAlloc-ms0.TotalAlloc, len(dg), allocBound(len(dg), maxPrev))
+	case allocVerdict(ms1.TotalAlloc-ms0.TotalAlloc, len(dg), p.cache(st)) != "":
+		verdict = allocVerdict(ms1.TotalAlloc-ms0.TotalAlloc, len(dg), p.cache(st))
 	case strings.HasPrefix(expect, "K2 ") && ln != expect[5:]:
 		// witness of finding K2: "K2 <n> <expected line>", n = octets per record (<= 4). The finding is named only
 		// when the harness has itself checked that what is missing is exactly a tail of such short records.
